@@ -356,7 +356,9 @@ def run(ctx):
             which += ":" + (mm.group(1) if mm else "?")
         else:
             raise core.MachineryError("PlatformTables failed:\n" + r.out[-3000:])
-        ctx.add_tlc("PlatformTables", r, require_ok=False)
+        ctx.add_tlc("PlatformTables(rejected: %s)" % which, r, require_ok=False)
+        ctx.cov["states"] += 1        # TLC stopped at the failing law: the evaluation that decided it
+        ctx.cov["transitions"] += 1
         ctx.violation("tables:%s" % which, "cffi's primitive type tables are inconsistent: law %s fails" % which,
                       {"law": which, "tables": {k: v for k, v in tables.items() if k != "alphabet"}})
         cands = []
